@@ -58,6 +58,8 @@ type v13Msg struct {
 	val   vVal        // update: its value
 	del   *sdcpb.Path // delete: the path removed
 	delID string
+	both  bool // update: the notification also carries lo10/mtu = val2
+	val2  vVal
 }
 
 func (m *v13Msg) String() string {
@@ -161,7 +163,8 @@ func (m *v13Mirror) install(env *vEnv) {
 
 // v13Situation names the known-defect situation (if any) in which leaf l can
 // be wrong after the messages; "" = none, a violation is then unexpected.
-func v13Situation(msgs []*v13Msg, l *vLeaf, workers int, wantPresent bool, stored int) string {
+// workers = 0: the messages were applied sequentially.
+func (mr *v13Mirror) situation(msgs []*v13Msg, l *vLeaf, workers int, wantPresent bool, stored int) string {
 	touches := func(m *v13Msg) bool {
 		switch m.kind {
 		case v13Update:
@@ -180,22 +183,33 @@ func v13Situation(msgs []*v13Msg, l *vLeaf, workers int, wantPresent bool, store
 			}
 		}
 	}
+	// a state leaf below a deleted list entry / container: the delete names a
+	// config node, so only the CONFIG store is asked to remove the subtree
+	if l == mr.state && !wantPresent && stored > 0 {
+		for _, m := range msgs {
+			if m.kind == v13Delete && vIsPrefix(m.delID, l.id) && m.delID != l.id {
+				return "/state-leaf-under-deleted-entry"
+			}
+		}
+	}
 	// a notification touching l can still be in flight when a later start/end
 	// is handled: with W workers notification i is certainly finished at
 	// message j only if W notifications were admitted in between
-	for i, m := range msgs {
-		if !touches(m) {
-			continue
-		}
-		between := 0
-		for _, n := range msgs[i+1:] {
-			switch n.kind {
-			case v13Start, v13End:
-				if between < workers {
-					return "/prune-does-not-wait-for-workers"
+	if workers >= 1 {
+		for i, m := range msgs {
+			if !touches(m) {
+				continue
+			}
+			between := 0
+			for _, n := range msgs[i+1:] {
+				switch n.kind {
+				case v13Start, v13End:
+					if between < workers {
+						return "/sync-start-or-end-does-not-wait-for-workers"
+					}
+				default:
+					between++
 				}
-			default:
-				between++
 			}
 		}
 	}
@@ -238,7 +252,7 @@ func (m *v13Mirror) assertMirror(env *vEnv, msgs []*v13Msg, workers int, validat
 			}
 		}
 		want := m.pres[l.id]
-		sit := v13Situation(msgs, l, workers, want, n)
+		sit := m.situation(msgs, l, workers, want, n)
 		verifrt.Assert(n <= 1, label+"-stored-once"+sit)
 		if want {
 			verifrt.Assert(n >= 1, label+"-reported-path-present"+sit)
@@ -328,7 +342,9 @@ func v13EnvFor(validate, withState bool, workers int64, buffer int64) *vEnv {
 // params: validate (0/1), state (0/1: universe has a state leaf that the update may name).
 func VerifStoreSyncMsg() {
 	validate := verifrt.Param("validate", 1) == 1
-	withState := verifrt.Param("state", 0) == 1
+	// without validation the code does not look at the schema: every leaf is
+	// mirrored in the CONFIG store and the property says nothing about state leaves
+	withState := verifrt.Param("state", 0) == 1 && validate
 	sc := v13Scenario()
 	env := v13EnvFor(validate, withState, 1, 1)
 	m := v13ArbitraryMirror(sc, withState)
@@ -367,4 +383,124 @@ func VerifStoreSyncMsg() {
 
 	// sequential call: no concurrency situation applies (workers = 0 disables them)
 	m.assertMirror(env, msgs, 0, validate, "C13")
+}
+
+// v13Options: what one message on the sync channel may be, given whether a
+// re-sync cycle is open (start only outside, end only inside a cycle).
+//
+// params: dels (0: no deletes, 1: delete of entry lo1, 2: + delete of entry lo10 and of lo1/mtu),
+// chunk (1: also one notification carrying both mtu updates).
+func v13Options(sc *vScenario, inCycle bool, tag string) []*v13Msg {
+	var out []*v13Msg
+	if inCycle {
+		out = append(out, &v13Msg{kind: v13End})
+	} else {
+		out = append(out, &v13Msg{kind: v13Start})
+	}
+	out = append(out, &v13Msg{kind: v13Update, leaf: sc.leaves[0]}, &v13Msg{kind: v13Update, leaf: sc.leaves[1]})
+	dels := v13Deletable(sc)
+	switch verifrt.Param("dels", 1) {
+	case 0:
+		dels = nil
+	case 1:
+		dels = dels[:1]
+	default:
+		dels = dels[:3]
+	}
+	for _, p := range dels {
+		out = append(out, &v13Msg{kind: v13Delete, del: p, delID: vPathID(p)})
+	}
+	if verifrt.Param("chunk", 0) == 1 {
+		out = append(out, &v13Msg{kind: v13Update, leaf: sc.leaves[0], both: true})
+	}
+	return out
+}
+
+func (m *v13Msg) syncUpdate(sc *vScenario) *target.SyncUpdate {
+	switch m.kind {
+	case v13Start:
+		return &target.SyncUpdate{Start: true}
+	case v13End:
+		return &target.SyncUpdate{End: true}
+	case v13Delete:
+		return &target.SyncUpdate{Update: &sdcpb.Notification{Delete: []*sdcpb.Path{m.del}}}
+	}
+	n := &sdcpb.Notification{Update: []*sdcpb.Update{{Path: m.leaf.path(), Value: m.leaf.tv(m.val)}}}
+	if m.both {
+		n.Update = append(n.Update, &sdcpb.Update{Path: sc.leaves[1].path(), Value: sc.leaves[1].tv(m.val2)})
+	}
+	return &target.SyncUpdate{Update: n}
+}
+
+// VerifSync: the real Datastore.Sync loop with `workers` write workers is fed
+// `msgs` messages (start / end / one-update notification / one-delete
+// notification, in an arbitrary well-formed order: start only outside, end
+// only inside a cycle) over an arbitrary mirror content; once everything has
+// been processed the mirror must equal the fold of the messages in the order
+// the device sent them.
+//
+// params: workers (1,2), msgs (2..4), validate (0/1), pre (0: empty mirror,
+// 1: arbitrary, 2: both entries present), dels, chunk (see v13Options).
+func VerifSync() {
+	workers := verifrt.Param("workers", 1)
+	n := verifrt.Param("msgs", 3)
+	validate := verifrt.Param("validate", 1) == 1
+	sc := v13Scenario()
+	env := v13EnvFor(validate, false, int64(workers), int64(n))
+	env.ds.synCh = make(chan *target.SyncUpdate, n)
+
+	var m *v13Mirror
+	switch verifrt.Param("pre", 2) {
+	case 0:
+		m = v13NewMirror(sc)
+	case 1:
+		m = v13ArbitraryMirror(sc, false)
+	default:
+		m = v13NewMirror(sc)
+		m.set(sc.leaves[0], sc.leaves[0].newVal("preval.L0"))
+		m.set(sc.leaves[1], sc.leaves[1].newVal("preval.L1"))
+		m.written = map[string]bool{}
+	}
+	m.install(env)
+	verifrt.Reach("mirror-built")
+
+	// the device's messages
+	var msgs []*v13Msg
+	for i := 0; i < n; i++ {
+		tag := "m" + string(rune('0'+i))
+		opts := v13Options(sc, m.inCycle, tag)
+		msg := opts[verifrt.Choice(tag, len(opts))]
+		if msg.kind == v13Update {
+			msg.val = msg.leaf.newVal(tag + ".val")
+			if msg.both {
+				msg.val2 = sc.leaves[1].newVal(tag + ".val2")
+			}
+		}
+		msgs = append(msgs, msg)
+		m.apply(msg)
+		if msg.both {
+			m.set(sc.leaves[1], msg.val2)
+		}
+	}
+
+	ctx, cancel := context.WithCancel(context.Background())
+	go env.ds.Sync(ctx)
+	for _, msg := range msgs {
+		env.ds.synCh <- msg.syncUpdate(sc)
+	}
+	verifrt.AwaitQuiescence()
+	verifrt.Reach("processed")
+	verifrt.Assert(len(env.ds.synCh) == 0, "C13-all-messages-consumed")
+	cancel()
+	verifrt.AwaitQuiescence()
+	verifrt.Assert(verifrt.Goroutines() == 0, "C13-sync-stops-on-cancel")
+
+	for _, msg := range msgs {
+		if msg.both {
+			// for the situation analysis a two-update notification touches both leaves
+			msgs = append(msgs, &v13Msg{kind: v13Update, leaf: sc.leaves[1]})
+			break
+		}
+	}
+	m.assertMirror(env, msgs, workers, validate, "C13")
 }
